@@ -30,6 +30,9 @@ def replay(payload):
     import json
     print(json.dumps(payload, indent=1)[:4000])
     case = payload.get("case")
+    if isinstance(case, dict) and "idmt" in case:      # thread-level stress case of the id allocator (C12, C03)
+        from props import idmt_common
+        return idmt_common.replay_case(payload)
     if isinstance(case, dict) and "history" in case:
         for name, cmd in (("impl ", vlib.rust_bin("clihist")), ("model", vlib.model_bin("clihist"))):
             rc, out = vlib.sh([cmd], input=case["history"] + "\n")
